@@ -173,9 +173,10 @@ func (self *Interpreter) functionLiteral(node ast.AnalyzedFunctionLiteralExpress
 	// scopes pushed later would overwrite the captured ones in the shared backing array.
 	capturedScopes := append([]map[string]*value.Value{}, self.currentModule.scopes...)
 
-	return value.NewValueClosure(
+	return value.NewValueClosureInModule(
 		node.Body,
 		capturedScopes,
+		self.currentModuleName,
 	), nil
 }
 
